@@ -885,6 +885,30 @@ def triple_cases():
                                         "tree": {"t": op, "a": right, "b": left, "inplace": False}})
     return out
 
+REPEAT_KEYS = [[0, 0, 0, 1, 2], [0, 1, 1, 1, 2, 2, 2], [0, 0, 0, 1], [0, 0, 1, 1, 2], [2, 2, 2, 2, 2, 0, 1], [0, 0, 0], [1, 1, 1, 1],
+               [0, 1, 2, 0, 1, 2, 0], [3, 3, 3, 0, 1], [0, 0, 0, 0, 1, 2]]
+
+
+def repeat_cases():
+    """raw keys in which one label occurs three or more times next to others, met by every model type through the constructor,
+    `model op raw`, `raw op model` and the in-place forms: boolean squashing keeps each label once, spin squashing the labels of
+    odd multiplicity, and the degree-2 types must accept / reject by the degree of the SQUASHED key (fixed grid, every seed)"""
+    out = []
+    for fam, kinds in (("bool", BOOL_KINDS), ("spin", SPIN_KINDS)):
+        for k in kinds:
+            for key in REPEAT_KEYS:
+                raw = {"t": "raw", "p": [[key, "3"], [[0], "1"]]}
+                base = {"t": "mdl", "k": k, "p": [[[0, 1], "2"], [[], "1"]]}
+                one = {"t": "mdl", "k": k, "p": [[[], "1"]]}
+                trees = [{"t": "cast", "k": k, "a": raw},
+                         {"t": "add", "a": base, "b": raw, "inplace": False}, {"t": "add", "a": raw, "b": base, "inplace": False},
+                         {"t": "add", "a": base, "b": raw, "inplace": True}, {"t": "sub", "a": base, "b": raw, "inplace": True},
+                         {"t": "mul", "a": one, "b": raw, "inplace": False}, {"t": "mul", "a": one, "b": raw, "inplace": True}]
+                for tr in trees:
+                    out.append({"family": "repeat", "fam": fam, "n": 4, "labels": "int", "num": "frac", "tree": tr})
+    return out
+
+
 def strip(t):
     """the tree as the driver sees it (harness-only fields removed)"""
     u = {k: v for k, v in t.items() if k not in ("inplace", "alias")}
@@ -938,7 +962,7 @@ def process_plain(ctx, cases):
 
 def check(ctx):
     rng = ctx.rng
-    cases = triple_cases()
+    cases = triple_cases() + repeat_cases()
     cases += [expr_case(rng) for _ in range(ctx.scale(1500, 20000))]
     cases += [value_case(rng) for _ in range(ctx.scale(400, 4000))]
     cases += equalfn_cases(rng, ctx.scale(3, 30))      # generated last: the earlier streams are unchanged
